@@ -2124,6 +2124,12 @@ class Irc(IrcCommandDispatcher, log.Firewalled):
                         u.auth[i] = (u.auth[i][0], newhostmask)
                         ircdb.users.setUser(u)
 
+    def doChghost(self, msg):
+        """Handles CHGHOST messages about the bot itself."""
+        if msg.nick == self.nick:
+            (user, host) = msg.args
+            self.prefix = ircutils.joinHostmask(self.nick, user, host)
+
     def _reallyDie(self):
         """Makes the Irc object die.  Dead."""
         log.info('Irc object for %s dying.', self.network)
